@@ -10,6 +10,10 @@
 //@type (Pomerol::)?TermList<(Pomerol::)?TwoParticleGFPart::ResonantTerm> => TermListR ptr
 //@record Pomerol::TwoParticleGFPart::NonResonantTerm => NRTerm val
 //@record Pomerol::TwoParticleGFPart::ResonantTerm => RTerm val
+//@record Pomerol::TwoParticleGFPart::NonResonantTerm::IsNegligible => NRIsNegligible val
+//@record Pomerol::TwoParticleGFPart::ResonantTerm::IsNegligible => RIsNegligible val
+//@record Pomerol::TwoParticleGFPart::NonResonantTerm::Compare => NRCompare val
+//@record Pomerol::TwoParticleGFPart::ResonantTerm::Compare => RCompare val
 //@record Pomerol::Permutation3 => Permutation3 val
 //@record Pomerol::CreationOperatorPart => struct FieldOperatorPart ptr
 //@tu src/pomerol/TwoParticleGFPart.cpp
@@ -18,6 +22,11 @@ typedef struct NRTerm NRTerm; typedef struct RTerm RTerm; typedef struct Permuta
 //@struct Pomerol::TwoParticleGFPart::NonResonantTerm
 //@struct Pomerol::TwoParticleGFPart::ResonantTerm
 //@struct Pomerol::Permutation3
+typedef struct NRIsNegligible NRIsNegligible; typedef struct RIsNegligible RIsNegligible; typedef struct NRCompare NRCompare; typedef struct RCompare RCompare;
+//@struct Pomerol::TwoParticleGFPart::NonResonantTerm::IsNegligible
+//@struct Pomerol::TwoParticleGFPart::ResonantTerm::IsNegligible
+//@struct Pomerol::TwoParticleGFPart::NonResonantTerm::Compare
+//@struct Pomerol::TwoParticleGFPart::ResonantTerm::Compare
 //@struct Pomerol::FieldOperatorPart only=elementsColMajor,elementsRowMajor,Status
 //@struct Pomerol::HamiltonianPart only=Eigenvalues,Status
 //@struct Pomerol::DensityMatrixPart only=weights,beta
@@ -43,6 +52,11 @@ static inline cplx TermListNR_call(TermListNR *tl, cplx z1, cplx z2, cplx z3)
 { tl->n_eval++; tl->ez1 = z1; tl->ez2 = z2; tl->ez3 = z3; return nr_value(z1, z2, z3); }
 static inline cplx TermListR_call(TermListR *tl, cplx z1, cplx z2, cplx z3, double tol)
 { tl->n_eval++; tl->ez1 = z1; tl->ez2 = z2; tl->ez3 = z3; tl->etol = tol; return r_value(z1, z2, z3, tol); }
+/* TermList<ResonantTerm>::operator()(z1,z2,z3) -- the THREE-argument call operator of TermList.h hands three arguments to every term, so
+ * ResonantTerm::operator() runs with its documented default "KroneckerSymbolTolerance = 1e-16" (TwoParticleGFPart.h): the model records that. */
+//@rename TermListR_call/3 => TermListR_call3
+static inline cplx TermListR_call3(TermListR *tl, cplx z1, cplx z2, cplx z3)
+{ tl->n_eval++; tl->ez1 = z1; tl->ez2 = z2; tl->ez3 = z3; tl->etol = 1e-16; return r_value(z1, z2, z3, 1e-16); }
 
 //@struct Pomerol::TwoParticleGFPart embed=O1,O2,O3,CX4,Hpart1,Hpart2,Hpart3,Hpart4,DMpart1,DMpart2,DMpart3,DMpart4
 //@free abs(cplx) => c_abs
@@ -150,3 +164,188 @@ void h_TPGFP_call3(void)
   cplx r = TwoParticleGFPart_call3(p, z1, z2, z3);
   REACH("exit");
 }
+
+/* =============================================================================================
+ * The two kinds of terms themselves (TwoParticleGFPart.h).  All pins: doubles are uninterpreted (congruence), the spec expression is
+ * written in the operand order of the documentation.
+ *
+ * (a) IsNegligible ("Does term have a negligible residue?"):  resonant: |R| < Tol/div AND |N| < Tol/div;  non-resonant: |C| < Tol/div. */
+static _Bool spec_small(cplx c, double tol, unsigned long divisor) { return D_LT(c_abs(c), D_DIV(tol, (double)divisor)); }
+//@function Pomerol::TwoParticleGFPart::ResonantTerm::IsNegligible::operator()(Pomerol::TwoParticleGFPart::ResonantTerm const&, unsigned long) const as RIsNegligible_call
+//@contract
+__CPROVER_requires(__CPROVER_is_fresh(self, sizeof(*self)))
+__CPROVER_assigns()
+__CPROVER_ensures(__CPROVER_return_value == (spec_small(t.ResCoeff, self->Tolerance, ToleranceDivisor) && spec_small(t.NonResCoeff, self->Tolerance, ToleranceDivisor)))
+//@end
+//@function Pomerol::TwoParticleGFPart::NonResonantTerm::IsNegligible::operator()(Pomerol::TwoParticleGFPart::NonResonantTerm const&, unsigned long) const as NRIsNegligible_call
+//@contract
+__CPROVER_requires(__CPROVER_is_fresh(self, sizeof(*self)))
+__CPROVER_assigns()
+__CPROVER_ensures(__CPROVER_return_value == spec_small(t.Coeff, self->Tolerance, ToleranceDivisor))
+//@end
+//@harness h_RTerm_IsNegligible enforce=RIsNegligible_call props=C02 min_obl=45 reach=2 timeout=120
+void h_RTerm_IsNegligible(void)
+{
+  RIsNegligible *p; RTerm t; unsigned long n;
+  if (RIsNegligible_call(p, t, n)) REACH("negligible"); else REACH("kept");
+}
+//@harness h_NRTerm_IsNegligible enforce=NRIsNegligible_call props=C02 min_obl=33 reach=2 timeout=120
+void h_NRTerm_IsNegligible(void)
+{
+  NRIsNegligible *p; NRTerm t; unsigned long n;
+  if (NRIsNegligible_call(p, t, n)) REACH("negligible"); else REACH("kept");
+}
+
+/* (b) operator+= ("adds a term to this one; does not check the similarity"; Weight: "statistical weight of current term for averaging"):
+ *   the weights add, every pole becomes the weighted average (W*P + W'*P')/(W+W'), the coefficients add, isz4 / isz1z2 are kept,
+ *   *this is returned.  TYPE INVARIANT of a term: Weight >= 1 (constructor: 1; += only adds); LIMIT: Weight <= 2^61 (no overflow of W+W'). */
+#define WEIGHT_OK(w) (1 <= (w) && (w) <= (1L << 61))
+static double spec_avg_pole(long W, double P, long W2, double P2)
+{ return D_DIV(D_ADD(D_MUL((double)W, P), D_MUL((double)W2, P2)), (double)(W + W2)); }
+static _Bool nr_sum_is(NRTerm now, NRTerm old, NRTerm t)
+{
+  return now.Weight == old.Weight + t.Weight && now.isz4 == old.isz4 && C_SAME(now.Coeff, op_add_cplx_cplx(old.Coeff, t.Coeff)) &&
+         D_SAME(now.Poles[0], spec_avg_pole(old.Weight, old.Poles[0], t.Weight, t.Poles[0])) &&
+         D_SAME(now.Poles[1], spec_avg_pole(old.Weight, old.Poles[1], t.Weight, t.Poles[1])) &&
+         D_SAME(now.Poles[2], spec_avg_pole(old.Weight, old.Poles[2], t.Weight, t.Poles[2]));
+}
+static _Bool r_sum_is(RTerm now, RTerm old, RTerm t)
+{
+  return now.Weight == old.Weight + t.Weight && now.isz1z2 == old.isz1z2 &&
+         C_SAME(now.ResCoeff, op_add_cplx_cplx(old.ResCoeff, t.ResCoeff)) && C_SAME(now.NonResCoeff, op_add_cplx_cplx(old.NonResCoeff, t.NonResCoeff)) &&
+         D_SAME(now.Poles[0], spec_avg_pole(old.Weight, old.Poles[0], t.Weight, t.Poles[0])) &&
+         D_SAME(now.Poles[1], spec_avg_pole(old.Weight, old.Poles[1], t.Weight, t.Poles[1])) &&
+         D_SAME(now.Poles[2], spec_avg_pole(old.Weight, old.Poles[2], t.Weight, t.Poles[2]));
+}
+/* ghost for the loop invariant (no calls there): bit patterns of the three poles before the call and of the three documented averages */
+unsigned long g_old_pole[3], g_exp_pole[3];
+#define PBITS(x) (*(unsigned long *)&(x))
+#define POLE_GHOST(self, t, q) (g_old_pole[q] == d_bits((self)->Poles[q]) && g_exp_pole[q] == d_bits(spec_avg_pole((self)->Weight, (self)->Poles[q], (t).Weight, (t).Poles[q])))
+#define POLE_INV(self, q) (PBITS((self)->Poles[q]) == (p > (q) ? g_exp_pole[q] : g_old_pole[q]))
+//@function Pomerol::TwoParticleGFPart::NonResonantTerm::operator+=(Pomerol::TwoParticleGFPart::NonResonantTerm const&) as NRTerm_addassign
+//@contract
+__CPROVER_requires(__CPROVER_is_fresh(self, sizeof(*self)) && WEIGHT_OK(self->Weight) && WEIGHT_OK(AnotherTerm.Weight))
+__CPROVER_requires(POLE_GHOST(self, AnotherTerm, 0) && POLE_GHOST(self, AnotherTerm, 1) && POLE_GHOST(self, AnotherTerm, 2))
+__CPROVER_assigns(self->Weight, self->Coeff, __CPROVER_object_upto(self->Poles, sizeof(self->Poles)))
+__CPROVER_ensures(__CPROVER_return_value == self)
+__CPROVER_ensures(nr_sum_is(*self, __CPROVER_old(*self), AnotherTerm))
+//@loop 1
+__CPROVER_assigns(p, __CPROVER_object_upto(self->Poles, sizeof(self->Poles)))
+__CPROVER_loop_invariant(p <= 3 && POLE_INV(self, 0) && POLE_INV(self, 1) && POLE_INV(self, 2))
+__CPROVER_decreases(3 - (int)p)
+//@end
+//@function Pomerol::TwoParticleGFPart::ResonantTerm::operator+=(Pomerol::TwoParticleGFPart::ResonantTerm const&) as RTerm_addassign
+//@contract
+__CPROVER_requires(__CPROVER_is_fresh(self, sizeof(*self)) && WEIGHT_OK(self->Weight) && WEIGHT_OK(AnotherTerm.Weight))
+__CPROVER_requires(POLE_GHOST(self, AnotherTerm, 0) && POLE_GHOST(self, AnotherTerm, 1) && POLE_GHOST(self, AnotherTerm, 2))
+__CPROVER_assigns(self->Weight, self->ResCoeff, self->NonResCoeff, __CPROVER_object_upto(self->Poles, sizeof(self->Poles)))
+__CPROVER_ensures(__CPROVER_return_value == self)
+__CPROVER_ensures(r_sum_is(*self, __CPROVER_old(*self), AnotherTerm))
+//@loop 1
+__CPROVER_assigns(p, __CPROVER_object_upto(self->Poles, sizeof(self->Poles)))
+__CPROVER_loop_invariant(p <= 3 && POLE_INV(self, 0) && POLE_INV(self, 1) && POLE_INV(self, 2))
+__CPROVER_decreases(3 - (int)p)
+//@end
+//@harness h_NRTerm_addassign enforce=NRTerm_addassign props=C02 min_obl=271 reach=1 timeout=120
+void h_NRTerm_addassign(void) { NRTerm *t; NRTerm u; NRTerm_addassign(t, u); REACH("exit"); }
+//@harness h_RTerm_addassign enforce=RTerm_addassign props=C02 min_obl=271 reach=1 timeout=120
+void h_RTerm_addassign(void) { RTerm *t; RTerm u; RTerm_addassign(t, u); REACH("exit"); }
+
+/* (c) the value of one term -- the "resonance decision" of C02.
+ *   non-resonant:  C/((z1-P1)(z2-P2)(z3-P3))                       [isz4 == false]
+ *                  C/((z1-P1)(z1+z2+z3-P1-P2-P3)(z3-P3))           [isz4 == true]
+ *   resonant:      ( |D| < tol ? R : N/D ) / ((z1-P1)(z3-P3)),  D = z1+z2-P1-P2 [isz1z2]  or  z2+z3-P2-P3 [otherwise]
+ *                  ("R delta(D) + N (1-delta(D))/D": delta(D) = 1 iff |D| < KroneckerSymbolTolerance) */
+static cplx spec_nr_value(NRTerm t, cplx z1, cplx z2, cplx z3)
+{
+  cplx a = op_sub_cplx_double(z1, t.Poles[0]), c = op_sub_cplx_double(z3, t.Poles[2]);
+  cplx b = t.isz4 ? op_sub_cplx_double(op_sub_cplx_double(op_sub_cplx_double(op_add_cplx_cplx(op_add_cplx_cplx(z1, z2), z3), t.Poles[0]), t.Poles[1]), t.Poles[2])
+                  : op_sub_cplx_double(z2, t.Poles[1]);
+  return op_div_cplx_cplx(t.Coeff, op_mul_cplx_cplx(op_mul_cplx_cplx(a, b), c));
+}
+static cplx spec_r_value(RTerm t, cplx z1, cplx z2, cplx z3, double tol)
+{
+  cplx D = t.isz1z2 ? op_sub_cplx_double(op_sub_cplx_double(op_add_cplx_cplx(z1, z2), t.Poles[0]), t.Poles[1])
+                    : op_sub_cplx_double(op_sub_cplx_double(op_add_cplx_cplx(z2, z3), t.Poles[1]), t.Poles[2]);
+  cplx num = D_LT(c_abs(D), tol) ? t.ResCoeff : op_div_cplx_cplx(t.NonResCoeff, D);
+  return op_div_cplx_cplx(num, op_mul_cplx_cplx(op_sub_cplx_double(z1, t.Poles[0]), op_sub_cplx_double(z3, t.Poles[2])));
+}
+//@rename NRTerm_call/3 => NRTerm_call
+//@function Pomerol::TwoParticleGFPart::NonResonantTerm::operator()(std::complex<double>, std::complex<double>, std::complex<double>) const as NRTerm_call
+//@contract
+__CPROVER_requires(__CPROVER_is_fresh(self, sizeof(*self)))
+__CPROVER_assigns()
+__CPROVER_ensures(C_SAME(__CPROVER_return_value, spec_nr_value(*self, z1, z2, z3)))
+//@end
+//@function Pomerol::TwoParticleGFPart::ResonantTerm::operator()(std::complex<double>, std::complex<double>, std::complex<double>, double) const as RTerm_call
+//@contract
+__CPROVER_requires(__CPROVER_is_fresh(self, sizeof(*self)))
+__CPROVER_assigns()
+__CPROVER_ensures(C_SAME(__CPROVER_return_value, spec_r_value(*self, z1, z2, z3, KroneckerSymbolTolerance)))
+//@end
+//@harness h_NRTerm_call enforce=NRTerm_call props=C02 min_obl=105 reach=1 timeout=300
+void h_NRTerm_call(void) { NRTerm *t; cplx z1, z2, z3; NRTerm_call(t, z1, z2, z3); REACH("exit"); }
+//@harness h_RTerm_call enforce=RTerm_call props=C02 min_obl=128 reach=1 timeout=300
+void h_RTerm_call(void) { RTerm *t; cplx z1, z2, z3; double tol; RTerm_call(t, z1, z2, z3, tol); REACH("exit"); }
+
+/* (d) Compare ("Comparator object for terms"; TermList.h: "Like terms (equivalent w.r.t. TermType::Compare) are automatically collected"):
+ *   terms of different kind (isz4 / isz1z2) are ordered by the flag (false first); terms of the same kind lexicographically by
+ *   (P1, P2, P3) where two poles closer than Tolerance count as equal: the first pole pair with |P - P'| >= Tolerance decides by `<`,
+ *   for the last pole "less" means P3' - P3 >= Tolerance.  Pin (uninterpreted doubles).  NOT proved here: the properties of the induced
+ *   equivalence (strict weak order, like <=> all three poles within Tolerance) -- for the one-pole terms see termlist.c. */
+//@free abs(double) => d_abs
+//@function Pomerol::TwoParticleGFPart::NonResonantTerm::Compare::real_eq(double, double) const as NRCompare_real_eq
+//@end
+//@function Pomerol::TwoParticleGFPart::ResonantTerm::Compare::real_eq(double, double) const as RCompare_real_eq
+//@end
+static _Bool spec_close(double x1, double x2, double tol) { return D_LT(d_abs(D_SUB(x1, x2)), tol); }
+static _Bool spec_poles_less(double a0, double a1, double a2, double b0, double b1, double b2, double tol)
+{
+  return !spec_close(a0, b0, tol) ? D_LT(a0, b0) : (!spec_close(a1, b1, tol) ? D_LT(a1, b1) : D_GE(D_SUB(b2, a2), tol));
+}
+//@function Pomerol::TwoParticleGFPart::NonResonantTerm::Compare::operator()(Pomerol::TwoParticleGFPart::NonResonantTerm const&, Pomerol::TwoParticleGFPart::NonResonantTerm const&) const as NRCompare_call
+//@contract
+__CPROVER_requires(__CPROVER_is_fresh(self, sizeof(*self)))
+__CPROVER_assigns()
+__CPROVER_ensures(__CPROVER_return_value == (t1.isz4 == t2.isz4 ? spec_poles_less(t1.Poles[0], t1.Poles[1], t1.Poles[2], t2.Poles[0], t2.Poles[1], t2.Poles[2], self->Tolerance)
+                                                                   : (!t1.isz4 && t2.isz4)))
+//@end
+//@function Pomerol::TwoParticleGFPart::ResonantTerm::Compare::operator()(Pomerol::TwoParticleGFPart::ResonantTerm const&, Pomerol::TwoParticleGFPart::ResonantTerm const&) const as RCompare_call
+//@contract
+__CPROVER_requires(__CPROVER_is_fresh(self, sizeof(*self)))
+__CPROVER_assigns()
+__CPROVER_ensures(__CPROVER_return_value == (t1.isz1z2 == t2.isz1z2 ? spec_poles_less(t1.Poles[0], t1.Poles[1], t1.Poles[2], t2.Poles[0], t2.Poles[1], t2.Poles[2], self->Tolerance)
+                                                                       : (!t1.isz1z2 && t2.isz1z2)))
+//@end
+//@harness h_NRTerm_Compare enforce=NRCompare_call props=C02 min_obl=39 reach=1 timeout=120
+/* a C++ bool holds 0 or 1: the two flags are given canonical values (a nondeterministic struct may carry other bit patterns in a _Bool) */
+void h_NRTerm_Compare(void) { NRCompare *c; NRTerm a, b; a.isz4 = nondet_int() != 0; b.isz4 = nondet_int() != 0; NRCompare_call(c, a, b); REACH("exit"); }
+//@harness h_RTerm_Compare enforce=RCompare_call props=C02 min_obl=39 reach=1 timeout=120
+void h_RTerm_Compare(void) { RCompare *c; RTerm a, b; a.isz1z2 = nondet_int() != 0; b.isz1z2 = nondet_int() != 0; RCompare_call(c, a, b); REACH("exit"); }
+
+/* =============================================================================================
+ * WAVE-2 ADDITIONS -- what is proved, mutants (tools/try_mutant.py; obligation that failed)
+ * h_RTerm_IsNegligible / h_NRTerm_IsNegligible: negligible <=> |R| < Tol/div AND |N| < Tol/div  resp. |C| < Tol/div (pins).
+ *     `&&` -> `||`                                    RIsNegligible_call.postcondition.1
+ *     Tolerance / divisor -> Tolerance * divisor      NRIsNegligible_call.postcondition.1
+ * h_NRTerm_addassign / h_RTerm_addassign: weights add, each pole := (W*P + W'*P')/(W+W'), coefficients add, kind flag kept, returns *this;
+ *   frame Weight, coefficients, Poles.  Weights in [1, 2^61] (type invariant + LIMIT).
+ *     Coeff = AnotherTerm.Coeff                       NRTerm_addassign.postcondition.2
+ *     plain mean (P+P')/2                             NRTerm_addassign.loop_invariant_step.1/.2
+ *     NonResCoeff += AnotherTerm.ResCoeff             RTerm_addassign.postcondition.2
+ *     Weight not updated                              RTerm_addassign.postcondition.2
+ * h_NRTerm_call / h_RTerm_call: value of one term = the documented form (z2 / z4 form; resonant: (|D| < tol ? R : N/D)/((z1-P1)(z3-P3)) with
+ *   D = z1+z2-P1-P2 or z2+z3-P2-P3) -- the resonance decision of C02 for ONE term; pins, 25 s / 36 s.
+ *     ternary branches swapped (z1+z2 form)           RTerm_call.postcondition.1
+ *     z2+z3 form with P1+P2                           RTerm_call.postcondition.1
+ *     (z3-Poles[1]) in the z2 form                    NRTerm_call.postcondition.1
+ *     z1+z2-z3 in the z4 form                         NRTerm_call.postcondition.1
+ * h_TPGFP_call3 (existing contract, new 3-argument model TermListR_call3 of TermList's call operator, etol = 1e-16 = documented default):
+ *     ResonantTerms(z1,z2,z3) without ReduceResonanceTolerance    TwoParticleGFPart_call3.postcondition.4/.5 (etol == 1e-8; value)
+ * h_NRTerm_Compare / h_RTerm_Compare: order by kind flag, then lexicographic by poles with tolerance (pin).
+ *     isz4 `<` -> `>`                                 NRCompare_call.postcondition.1
+ *     real_eq(t1.Poles[0], t2.Poles[1])               RCompare_call.postcondition.1
+ *     last pole `>=` -> `>`                           NRCompare_call.postcondition.1
+ * NOT covered: properties of the equivalence induced by Compare for three-pole terms; TermList<...>::add_term for these term types (the container
+ *   is verified for GreensFunctionPart::Term in termlist.c); bit-precise behaviour of the term values near a pole.
+ */
